@@ -496,6 +496,15 @@ func c13(run *core.Run, replay string) {
 			add(trCase{T: t, Entropy: entVariants(t)[0], Shape: sh, Size: 4<<20 + 16 - hi*1000, Seed: run.Seed})
 		}
 	}
+	// the 16 MiB chunk size of ROLZ / ROLZX: blocks a few bytes longer than one chunk (a second chunk shorter than its fixed prologue)
+	for _, t := range []string{"ROLZ", "ROLZX"} {
+		for di, d := range []int{-1, 0, 1, 2, 3, 4, 5, 6, 7, 8, 9, 10, 11, 12, 16, 100} {
+			if !run.Thorough() && t == "ROLZ" && di%2 == 1 {
+				continue
+			}
+			add(trCase{T: t, Entropy: "ANS0", Shape: []string{"html", "text", "repeatblocks"}[di%3], Size: 16<<20 + d, Seed: run.Seed + int64(di)})
+		}
+	}
 	// the > 4 MiB regimes of BWT/BWTS (helper goroutines), and multi-MiB LZ/ROLZ
 	bigN := 4<<20 + 16
 	for _, t := range []string{"BWT", "BWTS", "LZ", "LZX", "ROLZ", "ROLZX", "TEXT", "RLT"} {
@@ -567,6 +576,10 @@ func trSig(c *trCase, r *trResult) string {
 	}
 	if r.Kind == "panic" && r.Hint != "" && r.Hint != "none" {
 		s += " hint=" + r.Hint
+	}
+	if (c.T == "ROLZ" || c.T == "ROLZX") && c.Size > 16<<20 && c.Size < 16<<20+12 {
+		// the input class of a recorded finding: one full 16 MiB chunk followed by 1..11 bytes
+		s += " input=one-chunk-plus-1..11-bytes"
 	}
 	return s
 }
